@@ -16,7 +16,7 @@ BASE_FLAGS = ['--output-json', '--time', '--triggers-mode', 'silent', '--multipl
 
 VERIF_MSGS = ('postcondition not satisfied', 'precondition not satisfied', 'assertion failed', 'invariant not satisfied', 'loop invariant not satisfied',
               'possible arithmetic underflow/overflow', 'possible division by zero', 'decreases not satisfied', 'termination', 'possible bit shift underflow/overflow',
-              'assertion failure', 'failed this', 'unable to prove', 'could not prove')
+              'assertion failure', 'failed this', 'unable to prove', 'could not prove', 'cannot prove', 'not satisfied', 'safety condition')
 import threading
 FAILKEYS = ('failed_clauses', 'failed_lemmas', 'body_fail', 'abort_fail', 'support_fail')
 _extract_lock = threading.Lock()
@@ -65,7 +65,7 @@ def classify(meta, res, unit_file):
     # contract header ranges for exec fns: from the `fn` line to out_line0
     r = dict(failed_clauses={}, failed_lemmas={}, body_fail={}, abort_fail={}, support_fail={}, infra=[], rlimit=[], compile_errors=[])
     base = os.path.basename(unit_file)
-    def category(msg, lines, f):
+    def category(msg, lines, f, foreign_pre=False):
         """what kind of obligation inside an extracted function body failed (DESIGN 7a):
         support  -- an assertion / lemma precondition inside a proof block the template inserted (proof guidance, not specification)
         abort    -- the panic condition of a library operation (checked arithmetic of the shim, native overflow, division by zero)
@@ -75,6 +75,7 @@ def classify(meta, res, unit_file):
         if any(k in msg for k in ('possible arithmetic underflow/overflow', 'possible division by zero', 'possible bit shift underflow/overflow')): return 'abort'
         if 'precondition not satisfied' in msg:
             pre = [a for (a, b, lab, p) in lines if 'failed precondition' in lab]
+            if foreign_pre: return 'abort'      # precondition of an operator specified in vstd (std_specs/ops.rs: the *_req of the shim's operator impls)
             for a in pre:
                 if any(g['sig_line0'] <= a <= g['out_line0'] for g in fns): return 'semantic'
                 if any(a0 <= a <= a1 for (nm, a0, a1) in lemma_ranges): return 'support'
@@ -86,6 +87,7 @@ def classify(meta, res, unit_file):
         if msg.startswith('aborting due to'): continue
         spans = [s for s in d.get('spans', []) if s.get('file_name', '').endswith(base)]
         lines = [(s['line_start'], s['line_end'], s.get('label') or '', s.get('is_primary')) for s in spans]
+        foreign_pre = any('failed precondition' in (s.get('label') or '') for s in d.get('spans', []) if not s.get('file_name', '').endswith(base))
         if 'rlimit' in msg.lower() or 'resource limit' in msg.lower() or 'timed out' in msg.lower():
             r['rlimit'].append((msg, lines)); continue
         is_verif = d.get('code') is None and any(k in msg for k in VERIF_MSGS)
@@ -108,7 +110,7 @@ def classify(meta, res, unit_file):
                 for (a, b, lab, prim) in lines:
                     if only_primary and not prim: continue
                     if f.get('sig_line0', f['out_line0']) <= a <= hi:
-                        key = {'semantic': 'body_fail', 'abort': 'abort_fail', 'support': 'support_fail'}[category(msg, lines, f)]
+                        key = {'semantic': 'body_fail', 'abort': 'abort_fail', 'support': 'support_fail'}[category(msg, lines, f, foreign_pre)]
                         r[key].setdefault(f['name'], []).append('%s @%d: %s' % (msg, a, text_lines[a - 1].strip()[:160])); hit = True; break
                 if hit: break
             if hit: break
@@ -127,17 +129,18 @@ def classify(meta, res, unit_file):
 
 def unit_result(unit, tier='quick', seed=0, probe=False, known_strict=()):
     """build + verify one unit (cached on the generated text)"""
-    force = set()
-    for _round in range(4):
+    force = set(); drop = set()
+    for _round in range(6):
         with _extract_lock:     # the extractor keeps per-function counters in module state
             try:
-                path, meta = extract.build_unit(unit, REPO, VERIF, BUILD, force_assume=force)
+                path, meta = extract.build_unit(unit, REPO, VERIF, BUILD, force_assume=force, drop_hints=drop)
             except extract.ExtractError as e0:
+                # a proof hint lost its anchor: verify the function without it (its failures then need a concrete input to count);
                 # a function can no longer be brought under its contract: verify the rest, that function becomes undecided
-                path, meta = extract.build_unit(unit, REPO, VERIF, BUILD, lenient=True, force_assume=force)
+                path, meta = extract.build_unit(unit, REPO, VERIF, BUILD, lenient=True, force_assume=force, drop_hints=drop)
                 meta['lenient_reason'] = str(e0)
             text = open(path).read()
-        key = hashlib.sha256((text + verus_version() + ' '.join(BASE_FLAGS) + 'v2' + json.dumps([f.get('hint_lines') for f in meta['functions']])).encode()).hexdigest()[:24]
+        key = hashlib.sha256((text + verus_version() + ' '.join(BASE_FLAGS) + 'v3' + json.dumps([f.get('hint_lines') for f in meta['functions']])).encode()).hexdigest()[:24]
         cdir = os.path.join(BUILD_ROOT, 'cache'); os.makedirs(cdir, exist_ok=True)
         cpath = os.path.join(cdir, '%s-%s.json' % (unit, key))
         if os.path.exists(cpath) and not os.environ.get('VERIF_NOCACHE'):
@@ -147,18 +150,25 @@ def unit_result(unit, tier='quick', seed=0, probe=False, known_strict=()):
         cl = classify(meta, res, path)
         if not cl['compile_errors']: break
         # front-end rejection: if every error lies inside extracted function bodies, assume those functions and try again
-        bad_fns = set()
+        bad_fns = set(); bad_hints = set()
         for d in res['diags']:
             if d.get('level') != 'error' or d.get('message', '').startswith('aborting'): continue
             msg0 = d.get('message', '')
             if (d.get('code') is None and any(k in msg0 for k in VERIF_MSGS)) or 'rlimit' in msg0.lower(): continue
             sp = [x for x in d.get('spans', []) if x.get('file_name', '').endswith(os.path.basename(path))]
-            hit = None
+            hit = None; hint = None
             for f in meta['functions']:
-                if f.get('kind') == 'fn' and not f.get('assumed') and any(f['sig_line0'] <= x['line_start'] <= f['out_line1'] for x in sp): hit = f['name']
-            if hit: bad_fns.add(hit)
+                if f.get('kind') == 'fn' and not f.get('assumed') and any(f['sig_line0'] <= x['line_start'] <= f['out_line1'] for x in sp):
+                    hit = f['name']
+                    for (h0, h1), hid in zip(f.get('hint_lines', []), f.get('hint_ids', [])):
+                        if hid >= 0 and any(h0 <= x['line_start'] <= h1 for x in sp if x.get('is_primary')): hint = (f['name'], hid)
+            if hint: bad_hints.add(hint)
+            elif hit: bad_fns.add(hit)
             elif sp or d.get('code'): bad_fns.add(None)
-        if None in bad_fns or not bad_fns or bad_fns <= force: break
+        if None in bad_fns: break
+        if bad_hints - drop:
+            drop |= bad_hints; continue       # first try again without the proof hints the front end rejects (e.g. a local they mention is gone)
+        if not bad_fns or bad_fns <= force: break
         force |= bad_fns
     attempts = [dict(rlimit=40, seed=None, wall=res['wall'])]
     # retry rule (DESIGN 7): a proof under any seed is a proof.  Only re-run when something failed
